@@ -2217,10 +2217,20 @@ func (p *Parser) parseAssignExprOrParam() IExpr {
 			}
 		}
 		p.assumeArrowFunc = false
-		if tt == AsyncToken {
-			return p.parseAsyncExpression(OpAssign, data)
+		// this expression does not pass through parseExpression: count its nesting level here
+		p.exprLevel++
+		if NestedExprLimit < p.exprLevel {
+			p.failMessage("too many nested expressions")
+			return nil
 		}
-		return p.parseIdentifierExpression(OpAssign, data)
+		var expr IExpr
+		if tt == AsyncToken {
+			expr = p.parseAsyncExpression(OpAssign, data)
+		} else {
+			expr = p.parseIdentifierExpression(OpAssign, data)
+		}
+		p.exprLevel--
+		return expr
 	} else if p.tt != OpenBracketToken && p.tt != OpenBraceToken {
 		p.assumeArrowFunc = false
 	}
